@@ -52,12 +52,20 @@ def gen_history(rng: random.Random, nops: typing.Optional[int] = None) -> list[d
     def train():
         k = rng.choice([0, 1, 1, 2, 2, 3])
         sizes = [rng.choice([1, 7, 64, 300, 9000]) for _ in range(k)]
+        lose = rng.randrange(k) if k and rng.random() < 0.07 else None
         return {'op': 'train', 'project': rng.choice(PROJECTS[:nproj]), 'rel': rng.randint(0, 5),
-                'states': [rng.randbytes(n).hex() for n in sizes], 'crash': crashspec()}
+                'states': [rng.randbytes(n).hex() for n in sizes], 'crash': None if lose is not None else crashspec(),
+                'lose': lose}
 
     ops.append({**publish(), 'crash': crashspec()})
+    if rng.random() < 0.2:  # swarm: a deep single-release history with an administrative prune in the middle
+        ops[0]['crash'] = None
+        ops.extend({**train(), 'project': ops[0]['project']} for _ in range(rng.randint(2, 4)))
+        ops.append({'op': 'prune', 'project': ops[0]['project'], 'rel': 0, 'gen': rng.randint(0, 3)})
+        nops = len(ops) + rng.randint(1, 3)
     while len(ops) < nops:
-        kind = rng.choices(['publish', 'train', 'restart', 'read', 'mount', 'train_unknown'], [3, 6, 1.5, 1, 0.7, 0.3])[0]
+        kind = rng.choices(['publish', 'train', 'restart', 'read', 'mount', 'train_unknown', 'prune'],
+                           [3, 6, 1.5, 1, 0.7, 0.3, 0.5])[0]
         if kind == 'publish':
             ops.append(publish())
         elif kind == 'train':
@@ -66,6 +74,9 @@ def gen_history(rng: random.Random, nops: typing.Optional[int] = None) -> list[d
             ops.append({'op': 'restart'})
         elif kind == 'read':
             ops.append({'op': 'read', 'project': rng.choice(PROJECTS[:nproj]), 'rel': rng.randint(0, 5),
+                        'gen': rng.randint(0, 5)})
+        elif kind == 'prune':
+            ops.append({'op': 'prune', 'project': rng.choice(PROJECTS[:nproj]), 'rel': rng.randint(0, 5),
                         'gen': rng.randint(0, 5)})
         elif kind == 'mount':
             ops.append({'op': 'mount', 'project': rng.choice(PROJECTS[:nproj]), 'rel': rng.randint(0, 5)})
@@ -93,13 +104,13 @@ def expected(model: dict) -> dict:
             continue
         releases = {}
         for ver, rel in rels.items():
-            gens = {i + 1: {'tag': {'states': len(g), 'trained': True}, 'states': list(g)}
-                    for i, g in enumerate(rel['gens'])}
+            gens = {n: {'tag': {'states': len(g), 'trained': True}, 'states': list(g)}
+                    for n, g in rel['gens'].items()}
             releases[ver] = {'manifest': [project, ver, pkgname(project)], 'gens': gens,
-                             'raw_gen': list(range(1, len(rel['gens']) + 1))}
+                             'raw_gen': sorted(rel['gens'])}
         top = max(rels, key=vkey)
         out[project] = {'releases': releases, 'raw_rel': sorted(rels),
-                        'latest': [top, len(rels[top]['gens']) or None]}
+                        'latest': [top, max(rels[top]['gens'], default=None)]}
     return out
 
 
@@ -252,8 +263,7 @@ class Run:
         current = self.file_digests()
         for project, rels in self.model.items():
             for ver, rel in rels.items():
-                prefixes = [f'{project}/{ver}/package.4ml'] + [f'{project}/{ver}/{g + 1}/' for g in
-                                                                range(len(rel['gens']))]
+                prefixes = [f'{project}/{ver}/package.4ml'] + [f'{project}/{ver}/{g}/' for g in rel['gens']]
                 for path, dig in current.items():
                     if any(path == p or path.startswith(p if p.endswith('/') else p + '/') for p in prefixes):
                         self.digests.setdefault(path, dig)
@@ -302,20 +312,24 @@ class Run:
             if rels and not vkey(ver) > max(vkey(v) for v in rels):
                 return 'publish', args, None, f'publish {project} {ver} ({op["kind"]}) [must be refused]'
             after = copy.deepcopy(model)
-            after.setdefault(project, {})[ver] = {'gens': []}
+            after.setdefault(project, {})[ver] = {'gens': {}}
             return 'publish', args, after, f'publish {project} {ver} ({op["kind"]})'
         assert op['op'] == 'train'
         project = op['project']
         rels = sorted(model.get(project, {}), key=vkey)
         if op.get('rel') is None or not rels:
             ver = op.get('version', '99.9')
-            return 'train', {'project': project, 'release': ver, 'states': op['states']}, None, \
+            return 'train', {'project': project, 'release': ver, 'states': op['states'], 'lose': None}, None, \
                 f'train {project} {ver} [unknown release: must change nothing]'
         ver = rels[op['rel'] % len(rels)]
+        targs = {'project': project, 'release': ver, 'states': op['states'], 'lose': op.get('lose')}
+        if op.get('lose') is not None and op['states']:
+            return 'train', targs, None, f'train {project} {ver} k={len(op["states"])} [a staged state is lost ' \
+                                         f'before the commit: must be refused and change nothing]'
         after = copy.deepcopy(model)
-        after[project][ver]['gens'].append(list(op['states']))
-        return 'train', {'project': project, 'release': ver, 'states': op['states']}, after, \
-            f'train {project} {ver} k={len(op["states"])}'
+        gens = after[project][ver]['gens']
+        gens[max(gens, default=0) + 1] = list(op['states'])
+        return 'train', targs, after, f'train {project} {ver} k={len(op["states"])}'
 
     def settle(self, where: str, before: dict, after: typing.Optional[dict]) -> str:
         """After a crash: the fresh observation must be the old or the complete new content."""
@@ -416,6 +430,29 @@ class Run:
             self.trace.append(op)
             self.stats['restarts'] += 1
             return
+        if kind == 'prune':
+            # an administrator removes a whole generation directory (outside forml's API); later numbering must
+            # still be "one above the highest existing one" and nothing else may change
+            rels = sorted(self.model.get(op['project'], {}), key=vkey)
+            self.trace.append(op)
+            if not rels:
+                return
+            ver = rels[op['rel'] % len(rels)]
+            gens = self.model[op['project']][ver]['gens']
+            if not gens:
+                return
+            gen = sorted(gens)[op['gen'] % len(gens)]
+            import shutil  # pylint: disable=import-outside-toplevel
+
+            shutil.rmtree(os.path.join(self.box.root, 'registry', op['project'], ver, str(gen)))
+            del gens[gen]
+            self.digests = {k: v for k, v in self.digests.items() if not k.startswith(f'{op["project"]}/{ver}/{gen}/')}
+            if self.child:  # caches of a live process may legitimately still hold the pruned item
+                self.child.close()
+                self.child = None
+            self.stats['prunes'] += 1
+            self.verify(f'op{idx} prune {op["project"]}/{ver}/{gen}')
+            return
         if kind in ('read', 'mount'):
             rels = sorted(self.model.get(op['project'], {}), key=vkey)
             if not rels:
@@ -430,11 +467,11 @@ class Run:
             else:
                 gens = self.model[op['project']][ver]['gens']
                 if gens:
-                    gen = op['gen'] % len(gens)
+                    gen = sorted(gens)[op['gen'] % len(gens)]
                     res = self.incarnation().call('read_explicit', {'project': op['project'], 'release': ver,
-                                                                    'generation': gen + 1})
+                                                                    'generation': gen})
                     if not res.ok or res.value != gens[gen]:
-                        raise base.Violation('state-mismatch', f'op{idx} explicit read {op["project"]}/{ver}/{gen + 1}: '
+                        raise base.Violation('state-mismatch', f'op{idx} explicit read {op["project"]}/{ver}/{gen}: '
                                                                f'{str(res.value)[:200]}')
                     self.stats['explicit_reads'] += 1
             self.trace.append(op)
@@ -496,12 +533,14 @@ class Run:
             if res.ok and kind == 'publish':
                 raise base.Violation('verdict-mismatch', f'{where}: was accepted')
             self.stats['refused'] += 1
+            if op.get('lose') is not None:
+                self.stats['fault:lost-staged-state'] += 1
         else:
             if not res.ok:
                 raise base.Violation('verdict-mismatch', f'{where}: failed with {res.value}')
-            if kind == 'train' and res.value != len(after[args['project']][args['release']]['gens']):
+            if kind == 'train' and res.value != max(after[args['project']][args['release']]['gens']):
                 raise base.Violation('generation-number', f'{where}: committed as generation {res.value}, expected '
-                                                          f'{len(after[args["project"]][args["release"]]["gens"])}')
+                                                          f'{max(after[args["project"]][args["release"]]["gens"])}')
             self.model = after
         self.verify(where)
 
@@ -636,9 +675,11 @@ def main(argv: list[str]) -> int:
     budget = args.budget or (42 if tier == 'quick' else 1500)
     enum = 'one' if tier == 'quick' else 'all'
     print(f'{PROP} seed={seed0} tier={tier} seeds={nseeds} budget={budget}s enum={enum}')
+    base.clean_replays(PROP)
     start = time.monotonic()
     jobs = [(seed0 * 1000 + i, enum) for i in range(nseeds)]
     results, errors, exhausted = base.sweep(run_seed, jobs, budget)
+    base.emit_digests(results)
     findings = base.open_findings(PROP)
     stats: collections.Counter = collections.Counter()
     shapes: set = set()
